@@ -95,3 +95,11 @@ ROLE_OF = {
     f"{OPS}._partial_reduce": (f"{OPS}.partial_reduce", ("concat", "keepdims")),
     f"{OPS}._general_blockwise": (f"{OPS}.general_blockwise", ("in_names", "target_names")),
 }
+ROLE_OF.update(
+    {
+        f"{PBW}._apply_blockwise_key_func_to_chunk_key": (f"{PBW}.apply_blockwise_key_func", ("FunctionArgs", "output_name")),
+        f"{PBW}._map_nested_impl": (f"{PBW}.map_nested", ("Iterator",)),
+        f"{CREATION}._like_args": (f"{CREATION}.zeros_like", ("chunks", "spec", "dtype")),
+        f"{PLAN}.Plan._create_lazy_zarr_arrays": (f"{PLAN}.Plan._finalize", ("LazyZarrArray", "create_zarr_arrays")),
+    }
+)
